@@ -2,13 +2,15 @@
 else the sender raises after bounded retries; malformed frame sequences are rejected.
 
 Tie: the real `ReliableSender`, `Listener` (incl. `_recv_one`, `recv_messages`), `Bridge.recv_events`,
-`Bridge.shutdown` and `Executor.recv_loop` (shell objects, one loop iteration at a time in coroutine threads)
+`Bridge.shutdown`, `Executor.recv_loop` (shell objects) and `DataServer.recv_loop` (the real DataServer, built by its
+own __init__ over a stub thread pool) - one loop iteration at a time in coroutine threads -
 wired to a FakeNet with a harness-controlled adversary (drop / duplicate / delay / reorder / inject malformed
 frame lists) and a fake clock, against Model/Ack.lean + Model/Frames.lean through Drive/C06.lean, op by op.
 "Handed to the application" is observed where the loop body takes a message out of the batch returned by
 `recv_messages` (resp. where `recv_events` returns its events), not at the return of `recv_messages`.
-Translator `retry_loops`: AST of executor.py / bridge.py / comms.py -> Gen/RetryLoops.lean (loops, derived
-phases, poll timeouts, constants).
+Translator `retry_loops`: AST of executor.py / bridge.py / data_server.py / comms.py -> Gen/RetryLoops.lean (loops,
+derived phases, poll timeouts, constants, `raiseEnds` = no except handler swallows the ValueError of maybe_retry, the
+receive-only loops, and the structural scan "Listener.acked only grows / ReliableSender.idx only increments").
 Oracle: written from the property text (handed to the receiving application exactly once or the sender raises
 once time has passed; never twice; never a different message; malformed frame sequences raise).
 """
@@ -31,28 +33,44 @@ LEVEL_TEXT = ("Lean theorems over Model/Ack.lean (ReliableSender send/ack/maybe_
               "exactly one of the three (c06_app_at_most_once, c06_app_accounted); nothing is discarded except by an abandoned iteration; an "
               "iteration that is not abandoned hands everything over; exactly-once at application level is PARTIAL (destination never "
               "abandons an iteration) with c06_app_exactly_once_full_fails as witness (the Listener acknowledges before the application is "
-              "handed the message). RETRIES - at most max_retries+1 transmissions, then the raise; the sender raises within max_retries "
+              "handed the message). RETRIES - at most max_retries+1 transmissions, then the raise; 'the sender raises' in these theorems is the "
+              "model's flag `raised` of the maybe_retry call: it is set within max_retries "
               "timer rounds and, with iterations of at most B ms, by the deadline remaining*(grace+B) ms whatever the network does - both "
-              "PARTIAL (destination host not popped; c06_raises_within_budget_full_fails). FORGED/MALFORMED frames - the parser accepts "
+              "PARTIAL (destination host not popped; c06_raises_within_budget_full_fails). THE RAISE ENDS THE LOOP - over the model's loop "
+              "runner loopFrom (iterations until one ends with the sender having raised) every loop whose row says callsRetry and raiseEnds ends "
+              "up with the message acknowledged or the loop ENDED with the raise, never going on with it undelivered (c06_raise_ends_loop, "
+              "c06_steady_loops_end_at_raise over the generated table); that no except handler around maybe_retry swallows the ValueError is the "
+              "generated column raiseEnds (c06_steady_loops_raise_ends, decide); that the real Bridge.recv_events / Executor.recv_loop really "
+              "end in that iteration (shutdown + ValueError to the controller / ExecutorFailure + terminate) is NOT proved: the tie compares it "
+              "(`stops` of every poll line) and the oracle excuses an undelivered message only when the raise reached the application. FORGED/MALFORMED frames - the parser accepts "
               "exactly the four legal shapes; in any state a malformed list is rejected or swallowed as a retransmission, never accepted "
               "(c06_malformed_rejected); in every history with injected malformed lists everything accepted / handed over is genuine - the "
               "message sent under that Syn to this endpoint or a local callback message (c06_malformed_never_delivered); even with arbitrary "
               "injected frames no Syn is accepted or handed over twice (c06_forged_never_twice); exactly-once fails with malformed frames "
               "(c06_app_exactly_once_forged_fails). LOOPS (generated "
-              "table, decide) - steady loops feed Acks, call maybe_retry and every non-startup loop polls with a finite timeout; deadline in "
-              "the constants of the source. Carried by the tie only: that a finite poll timeout makes iterations happen (fake poller blocks "
-              "for ever on timeout None), that what recv_events returns is what was staged.")
+              "table, decide) - steady loops feed Acks, call maybe_retry, do not swallow its raise, and every non-startup loop polls with a finite timeout; deadline in "
+              "the constants of the source; the receive-only loop DataServer.recv_loop (a Listener without a ReliableSender) is in its own table "
+              "(c06_recv_only_loops) and is driven. SOURCE SHAPE - Listener.acked is only constructed empty, tested and .add-ed to, "
+              "ReliableSender.idx only set to 0 and incremented (c06_source_monotone over the generated scan: the model's unbounded monotone "
+              "acked / idx, on which at-most-once rests, are the source's). Carried by the tie only: that a finite poll timeout makes iterations "
+              "happen (fake poller blocks for ever on timeout None), that what recv_events returns is what was staged, that a raise of maybe_retry "
+              "leaves the real loop function, that de-duplication still holds after 1500+ messages through one Listener (long family, oracle only).")
 LEVEL_NOTE = ("modelled, not verified: comms.py ReliableSender/Listener/callback, the dispatch / Ack feeding / maybe_retry call / batch handling of "
-              "Bridge.recv_events, Bridge.shutdown, Executor.recv_loop; zmq sockets, the poller and the clock are fakes; pickle is trusted. "
+              "Bridge.recv_events, Bridge.shutdown, Executor.recv_loop, DataServer.recv_loop (receive side only; its jobs - shm, send_data - are "
+              "stubbed, its own re-send rule is C07's); zmq sockets, the poller and the clock are fakes; pickle is trusted. Random histories are "
+              "at most ~100 ops (model-compared); the long family (1500-1900 messages, delayed duplicates) is oracle-only. The direction "
+              "controller -> data server is acknowledged by the data server's Listener and sampled through the real DataServer loop; the data "
+              "server's answers (payloads) are sent by comms.send_data under the data server's own rule (C07), here by a ReliableSender stand-in. "
               "Known: shutdown handshake (Bridge.shutdown loop, ExecutorExit of a leaving executor), popped hosts, acknowledged-then-abandoned "
-              "batches (break / handler exception / shutdown_reason / maybe_retry raising / malformed frame), Ack sent before a frame list is validated.")
+              "batches (break / handler exception in Executor.recv_loop, Bridge.recv_events or DataServer.recv_loop / shutdown_reason / "
+              "maybe_retry raising / malformed frame), Ack sent before a frame list is validated.")
 TECHNIQUE = ("Lean 4 proof: 17-conjunct invariant + induction over the step list (unrestricted adversary), permutation invariant for the "
              "application-level places, potential arguments for the retry budget and for the wall-clock deadline, weaker invariants for "
-             "frame-forging adversaries (InvF: arbitrary frames, InvM: malformed frames); AST translator for the endpoint loops (phases derived from the source, poll timeouts); differential "
+             "frame-forging adversaries (InvF: arbitrary frames, InvM: malformed frames); AST translator for the endpoint loops (phases derived from the source, poll timeouts, except handlers around maybe_retry, uses of Listener.acked / ReliableSender.idx); differential "
              "correspondence with the real classes over a fake network, loop bodies observed message by message")
 LEAN_PROPS = ["EkwVerif.Props.C06"]
 LEAN_DRIVERS = ["C06"]
-RULE = ("random histories over 2-4 endpoints (real Bridge / Executor shells or bare Listener+ReliableSender pairs, both directions): sends "
+RULE = ("random histories over 2-4 endpoints (real Bridge / Executor shells, the real DataServer loop, or bare Listener+ReliableSender pairs, both directions): sends "
         "of regular messages and of DatasetTransmitPayloads (data path: from the bare endpoint that plays a data server to the controller = fetch, "
         "between bare endpoints = host-to-host transmit; framed as Syn + header + value by the real comms.send_data, so a duplicated or re-sent "
         "payload takes the three-frame path of _recv_one), "
@@ -61,7 +79,10 @@ RULE = ("random histories over 2-4 endpoints (real Bridge / Executor shells or b
         "malformed frame lists (legal shapes damaged, Syn frames naming live endpoints) injected into receive queues; in 40% application-level "
         "failures (dead worker, TaskFailure reports, unexpected message types, early ExecutorShutdown, Bridge.shutdown); 20% run with the real "
         "budget of 20 retries; every history ends with max_retries+2 timer rounds under a fair or black-holing network. Plus the deterministic "
-        "witnesses of every known finding, six deterministic payload histories (payload duplicated by the network towards the real Bridge - one "
+        "witnesses of every known finding (each checked to still show its signature: a witness that stops reproducing is a NOTE + count), two witnesses "
+        "in which the budget runs out inside the real Bridge.recv_events / Executor.recv_loop (the raise must end the loop), two LONG oracle-only histories "
+        "(1500-1900 messages through one real Listener - bare or Executor.recv_loop -, copies of early packets delivered 100 to 1300+ messages later and at the very end), "
+        "six deterministic payload histories (payload duplicated by the network towards the real Bridge - one "
         "batch / two batches -, re-sent after a lost Ack, re-sent with the Ack late, three copies at a bare data-server Listener read by single "
         "_recv_one calls, payloads in both directions under equal Syn indices), and random frame lists around the legal shapes for _recv_one in isolation (non-trivial = rejected "
         "or swallowed as duplicate). non-trivial history = at least one dropped or duplicated packet and at least one retransmission, or an "
@@ -75,6 +96,9 @@ ASSUMPTIONS = [
     "payload traffic: the acknowledged sender of a payload is the real ReliableSender whose PUSH socket hands a pickled DatasetTransmitPayload to the real "
     "comms.send_data (the data server's own 4 s re-send rule around send_data is C07's Model/Transfer.lean); message ids from 1000000 on are payloads (Model/Ack.lean shapeOf)",
     "worker processes, shm server and data server of the Executor shell are stubs; max_retries_per_message is patched to 1-3 in 80% of the histories (20 in the rest)",
+    "DataServer endpoints: the real DataServer (own __init__) with ThreadPoolExecutor replaced by a pool that completes every job at once without running it, shm_client.purge a no-op, data_server.time_ns the fake clock; only its receive side (Listener, dispatch, what ends an iteration) is exercised",
+    "raiseEnds (translator): a ValueError of maybe_retry counts as ending the loop iff every catching handler around the call re-raises, breaks / returns / sets the `while not self.<flag>` flag (inside the loop), or - outside the loop - has no return and the method ends with `raise`; the tie observes the outcome (`stops`) on every iteration in which the real maybe_retry raised",
+    "structural scan: any use of `.acked` in src/cascade/executor other than `self.acked = set()` in Listener.__init__, `x in self.acked`, `self.acked.add(x)`, and any store to `.idx` other than `self.idx = 0` in ReliableSender.__init__ / `self.idx += 1`, breaks c06_source_monotone (conservative: a harmless new use is a broken obligation to be looked at)",
 ]
 
 GRACE_MS = 800
@@ -145,8 +169,8 @@ def _timeout_of(call, consts_names):
     raise ValueError(f"recv_messages timeout argument not recognised: {ast.dump(arg)}")
 
 
-def _loop_info(loop, consts_names):
-    calls = [n for n in ast.walk(loop) if _is_self_attr_call(n, "mlistener", "recv_messages")]
+def _loop_info(loop, consts_names, listener="mlistener"):
+    calls = [n for n in ast.walk(loop) if _is_self_attr_call(n, listener, "recv_messages")]
     receives = bool(calls)
     feeds = False
     for n in ast.walk(loop):
@@ -165,6 +189,92 @@ def _loop_info(loop, consts_names):
     if receives and len(set(timeouts)) != 1:
         raise ValueError("a receive loop with several differently timed recv_messages calls")
     return receives, feeds, retries, (timeouts[0] if timeouts else None)
+
+
+CATCHES_VALUEERROR = ("ValueError", "Exception", "BaseException")
+
+
+def _handler_catches_valueerror(h):
+    t = h.type
+    if t is None:
+        return True
+    names = [t] if not isinstance(t, ast.Tuple) else list(t.elts)
+    for n in names:
+        nm = n.id if isinstance(n, ast.Name) else (n.attr if isinstance(n, ast.Attribute) else None)
+        if nm is None or nm in CATCHES_VALUEERROR:
+            return True          # an expression we cannot read counts as catching
+    return False
+
+
+def _contains(node, target):
+    return any(n is target for n in ast.walk(node))
+
+
+def _sets_flag_true(cls, meth, flag):
+    """method `meth` of the class unconditionally executes `self.<flag> = True`"""
+    for f in cls.body:
+        if isinstance(f, ast.FunctionDef) and f.name == meth:
+            for st in _unconditional_stmts(f.body):
+                if isinstance(st, ast.Assign) and len(st.targets) == 1 and isinstance(st.targets[0], ast.Attribute) \
+                        and st.targets[0].attr == flag and getattr(st.targets[0].value, "id", None) == "self" \
+                        and isinstance(st.value, ast.Constant) and st.value.value is True:
+                    return True
+    return False
+
+
+def _loop_flag(loop):
+    """`while not self.<flag>:` -> flag"""
+    t = loop.test
+    if isinstance(t, ast.UnaryOp) and isinstance(t.op, ast.Not) and isinstance(t.operand, ast.Attribute) \
+            and getattr(t.operand.value, "id", None) == "self":
+        return t.operand.attr
+    return None
+
+
+def _raise_ends(cls, fn, loop):
+    """Does a ValueError raised by the loop's `self.sender.maybe_retry()` END the loop - i.e. is it fatal for the
+    endpoint, as the property's clause (b) "else the sender raises" needs - or does some `except` handler swallow it?
+    Walks the `try` statements around the call from the inside out:
+      * a handler that does not catch ValueError / Exception / BaseException (or bare) is transparent;
+      * a catching handler whose last statement is `raise` passes the failure on (go on outwards);
+      * a catching handler INSIDE the loop ends the loop iff it unconditionally `break`s / `return`s or calls
+        `self.<m>()` where `<m>` unconditionally sets the flag the `while not self.<flag>` tests;
+      * a catching handler OUTSIDE the loop (the loop was left by the exception) must lead to a `raise`: the handler has
+        no `return` and the last statement of the method is a `raise`;
+      * anything else swallows the raise: False.
+    True when the loop does not call maybe_retry at all."""
+    call = None
+    for st in _unconditional_stmts(loop.body):
+        if isinstance(st, ast.Expr) and _is_self_attr_call(st.value, "sender", "maybe_retry"):
+            call = st
+    if call is None:
+        # a conditional / nested call would not be `callsRetry`; nothing to swallow
+        return True
+    tries = [n for n in ast.walk(fn) if isinstance(n, ast.Try) and any(_contains(b, call) for b in n.body)]
+    tries.sort(key=lambda t: -t.lineno)          # innermost first (a try that contains another starts earlier)
+    flag = _loop_flag(loop)
+    for t in tries:
+        catching = [h for h in t.handlers if _handler_catches_valueerror(h)]
+        if not catching:
+            continue
+        h = catching[0]           # the first matching handler takes the exception
+        if h.body and isinstance(h.body[-1], ast.Raise):
+            continue
+        inside = _contains(loop, t)
+        if inside:
+            ends = False
+            for st in h.body:
+                if isinstance(st, (ast.Break, ast.Return)):
+                    ends = True
+                if flag and isinstance(st, ast.Expr) and _is_self_call(st.value) and _sets_flag_true(cls, st.value.func.attr, flag):
+                    ends = True
+                if flag and isinstance(st, ast.Assign) and len(st.targets) == 1 and isinstance(st.targets[0], ast.Attribute) \
+                        and st.targets[0].attr == flag and isinstance(st.value, ast.Constant) and st.value.value is True:
+                    ends = True
+            return ends
+        has_return = any(isinstance(n, ast.Return) for st in h.body for n in ast.walk(st))
+        return (not has_return) and bool(fn.body) and isinstance(fn.body[-1], ast.Raise) and any(x is t for x in fn.body)
+    return True
 
 
 def _first_send_line(fn):
@@ -282,10 +392,123 @@ def scan_sources(repo):
                         if tmo[0] == "name":
                             tmo = ("name", local_names.get(tmo[1], tmo[1]))
                         loops.append({"name": name, "phase": _derive_phase(cls, fn, n), "feedsAck": feeds, "callsRetry": retries,
-                                      "timeout": list(tmo)})
+                                      "timeout": list(tmo), "raiseEnds": _raise_ends(cls, fn, n)})
     if not loops:
         raise ValueError("no receive loop found")
     return loops, consts
+
+
+def scan_recv_only(repo):
+    """receive loops of classes that own a Listener (`self.<x> = Listener(..)`) but no ReliableSender: the data server.
+    Its rows are (steady, feedsAck False, callsRetry False): it acknowledges like every Listener and hands Acks to its
+    own bookkeeping (`self.acks`; the re-send rule on top of it is C07's Model/Transfer.lean)."""
+    base = repo / "src" / "cascade" / "executor"
+    rows = []
+    for path in sorted(base.glob("*.py")):
+        tree = ast.parse(path.read_text())
+        for cls in [n for n in tree.body if isinstance(n, ast.ClassDef)]:
+            has_sender = any(isinstance(n, ast.Call) and getattr(n.func, "id", None) == "ReliableSender" for n in ast.walk(cls))
+            lattr = None
+            for n in ast.walk(cls):
+                if isinstance(n, ast.Assign) and isinstance(n.value, ast.Call) and getattr(n.value.func, "id", None) == "Listener":
+                    t = n.targets[0]
+                    if isinstance(t, ast.Attribute) and getattr(t.value, "id", None) == "self":
+                        lattr = t.attr
+            if lattr is None or has_sender:
+                continue
+            for fn in [n for n in cls.body if isinstance(n, ast.FunctionDef)]:
+                local_ints = {}
+                for n in ast.walk(fn):
+                    if isinstance(n, ast.Assign) and len(n.targets) == 1 and isinstance(n.targets[0], ast.Name) \
+                            and isinstance(n.value, ast.Constant) and type(n.value.value) is int:
+                        if n.targets[0].id in local_ints and local_ints[n.targets[0].id] != n.value.value:
+                            raise ValueError(f"{cls.name}.{fn.name}: local {n.targets[0].id} assigned two different integers")
+                        local_ints[n.targets[0].id] = n.value.value
+                k = 0
+                for n in ast.walk(fn):
+                    if isinstance(n, ast.While):
+                        receives, feeds, retries, tmo = _loop_info(n, local_ints, listener=lattr)
+                        if not receives:
+                            continue
+                        if tmo[0] == "name":
+                            tmo = ("int", local_ints[tmo[1]])
+                        if tmo == ("default",):
+                            tmo = ("name", "default_timeout_ms")
+                        name = f"{cls.name}.{fn.name}" + (f"#{k}" if k else "")
+                        k += 1
+                        rows.append({"name": name, "phase": "steady", "feedsAck": feeds, "callsRetry": retries, "timeout": list(tmo),
+                                     "raiseEnds": True, "listener": lattr, "file": path.name})
+    return rows
+
+
+def scan_structure(repo):
+    """Structural obligations the model rests on (Model/Ack.lean: `acked` only ever gains elements, `idx` is an unbounded
+    counter that only goes up - `Inv.del_nodup`, i.e. at-most-once, is proved from exactly that):
+      * every use of `Listener.acked` (any `<x>.acked` in src/cascade/executor) is its construction `self.acked = set()`
+        in `Listener.__init__`, a membership test `<y> in self.acked`, or `self.acked.add(<y>)`;
+      * every store to `ReliableSender.idx` is `self.idx = 0` in `__init__` or `self.idx += 1`.
+    Returns {"ackedOnlyGrows": [offending "file:line: code"...], "idxOnlyIncrements": [...]} (empty lists = holds)."""
+    base = repo / "src" / "cascade" / "executor"
+    bad_acked, bad_idx = [], []
+    for path in sorted(base.glob("*.py")):
+        src = path.read_text()
+        tree = ast.parse(src)
+        lines = src.splitlines()
+        parent = {}
+        for n in ast.walk(tree):
+            for c in ast.iter_child_nodes(n):
+                parent[c] = n
+
+        def where(n):
+            return f"{path.name}:{n.lineno}: {lines[n.lineno - 1].strip()[:90]}"
+
+        def enclosing(n, kinds):
+            while n in parent:
+                n = parent[n]
+                if isinstance(n, kinds):
+                    return n
+            return None
+        for n in ast.walk(tree):
+            if isinstance(n, ast.Attribute) and n.attr == "acked":
+                par = parent.get(n)
+                fn = enclosing(n, ast.FunctionDef)
+                cls = enclosing(n, ast.ClassDef)
+                in_listener = cls is not None and cls.name == "Listener" and getattr(n.value, "id", None) == "self"
+                ok = False
+                if in_listener and isinstance(par, (ast.Assign, ast.AnnAssign)) and fn is not None and fn.name == "__init__":
+                    tgt = par.targets[0] if isinstance(par, ast.Assign) else par.target
+                    v = par.value
+                    ok = tgt is n and isinstance(v, ast.Call) and getattr(v.func, "id", None) == "set" and not v.args and not v.keywords
+                elif in_listener and isinstance(par, ast.Compare) and len(par.ops) == 1 and isinstance(par.ops[0], (ast.In, ast.NotIn)) \
+                        and par.comparators[0] is n:
+                    ok = True
+                elif in_listener and isinstance(par, ast.Attribute) and par.attr == "add" and isinstance(parent.get(par), ast.Call) \
+                        and parent[par].func is par:
+                    ok = True
+                if not ok:
+                    bad_acked.append(where(n))
+            if isinstance(n, ast.Attribute) and n.attr == "idx" and isinstance(n.ctx, (ast.Store, ast.Del)):
+                cls = enclosing(n, ast.ClassDef)
+                if cls is None or cls.name != "ReliableSender":
+                    if getattr(n.value, "id", None) == "self" and cls is not None and cls.name == "ReliableSender":
+                        pass
+                    else:
+                        # a store to some other object's `.idx` in the executor package: only dataclass fields of messages are
+                        # ever written at construction (keyword arguments), never by attribute store on the pinned tree
+                        bad_idx.append(where(n))
+                        continue
+                par = parent.get(n)
+                fn = enclosing(n, ast.FunctionDef)
+                ok = False
+                if isinstance(par, ast.Assign) and fn is not None and fn.name == "__init__" and isinstance(par.value, ast.Constant) \
+                        and par.value.value == 0 and len(par.targets) == 1:
+                    ok = True
+                elif isinstance(par, ast.AugAssign) and isinstance(par.op, ast.Add) and isinstance(par.value, ast.Constant) \
+                        and par.value.value == 1 and type(par.value.value) is int:
+                    ok = True
+                if not ok:
+                    bad_idx.append(where(n))
+    return {"ackedOnlyGrows": bad_acked, "idxOnlyIncrements": bad_idx}
 
 
 def timeout_ms(loop, consts):
@@ -301,8 +524,12 @@ LEAN_CONST = {"default_message_resend_ms": "resendGraceMs", "default_timeout_ms"
               "max_retries_per_message": "maxRetries"}
 
 
-def render_gen(loops, consts):
+def render_gen(loops, consts, struct=None, recv_only=()):
     b = lambda x: "true" if x else "false"
+    struct = struct or {"ackedOnlyGrows": [], "idxOnlyIncrements": []}
+
+    def offending(xs):
+        return "holds" if not xs else "VIOLATED at " + "; ".join(x.replace("-/", "- /").replace("/-", "/ -") for x in xs)
 
     def tmo(t):
         if t[0] == "none":
@@ -312,8 +539,12 @@ def render_gen(loops, consts):
         return f"some {LEAN_CONST[t[1]]}"
     rows = ",\n".join(
         f'  {{ name := "{l["name"]}", phase := .{l["phase"]}, feedsAck := {b(l["feedsAck"])}, callsRetry := {b(l["callsRetry"])}, '
-        f'timeoutMs := {tmo(l["timeout"])} }}'
+        f'timeoutMs := {tmo(l["timeout"])}, raiseEnds := {b(l["raiseEnds"])} }}'
         for l in loops)
+    rows2 = ",\n".join(
+        f'  {{ name := "{l["name"]}", phase := .{l["phase"]}, feedsAck := {b(l["feedsAck"])}, callsRetry := {b(l["callsRetry"])}, '
+        f'timeoutMs := {tmo(l["timeout"])}, raiseEnds := {b(l["raiseEnds"])} }}'
+        for l in recv_only)
     return f"""/- GENERATED by harness/ekw/props/c06.py::translate (translator `retry_loops`) from
    src/cascade/executor/{{executor,bridge,comms}}.py — do not edit. -/
 import EkwVerif.Model.Ack
@@ -334,6 +565,19 @@ def loops : List LoopInfo := [
 {rows}
 ]
 
+/-- every `while` loop calling `recv_messages` of a class that owns a Listener but NO ReliableSender (the data
+server: it acknowledges what it accepts like every Listener; its own re-send rule is C07's) -/
+def recvOnlyLoops : List LoopInfo := [
+{rows2}
+]
+
+/-- AST scan of src/cascade/executor: every use of `Listener.acked` is `self.acked = set()` in `__init__`, a
+membership test, or `self.acked.add(..)` - the set only grows (Model/Ack.lean `acked`). Scan: {offending(struct["ackedOnlyGrows"])} -/
+def listenerAckedOnlyGrows : Bool := {b(not struct["ackedOnlyGrows"])}
+/-- AST scan: every store to `ReliableSender.idx` is `self.idx = 0` in `__init__` or `self.idx += 1` - an unbounded
+counter that only goes up (Model/Ack.lean `idx`). Scan: {offending(struct["idxOnlyIncrements"])} -/
+def senderIdxOnlyIncrements : Bool := {b(not struct["idxOnlyIncrements"])}
+
 end EkwVerif.Gen.RetryLoops
 """
 
@@ -344,24 +588,33 @@ _TABLE = {}
 def translate(ctx):
     from ekw import core
     loops, consts = scan_sources(core.REPO)
-    _TABLE["loops"] = {l["name"]: l for l in loops}
+    recv_only = scan_recv_only(core.REPO)
+    struct = scan_structure(core.REPO)
+    _TABLE["loops"] = {l["name"]: l for l in loops + recv_only}
     _TABLE["consts"] = consts
-    text = render_gen(loops, consts)
+    _TABLE["struct"] = struct
+    text = render_gen(loops, consts, struct, recv_only)
     path = core.LEAN_DIR / "EkwVerif" / "Gen" / "RetryLoops.lean"
     path.parent.mkdir(exist_ok=True)
     if not path.exists() or path.read_text() != text:
         path.write_text(text)
     ctx.extra["retry_loops_table"] = loops
+    ctx.extra["recv_only_loops_table"] = recv_only
+    ctx.extra["structural_scan"] = struct
+    for k, v in struct.items():
+        ctx.count(f"structural:{k}:{'holds' if not v else 'VIOLATED'}")
+    for l in recv_only:
+        ctx.count(f"table:{l['name']}:recv-only:timeout={timeout_ms(l, consts)}")
     ctx.extra["comms_consts"] = {k: consts[k] for k in ("max_retries_per_message", "default_message_resend_ms", "default_timeout_ms")}
     for l in loops:
-        ctx.count(f"table:{l['name']}:{l['phase']}:timeout={timeout_ms(l, consts)}")
+        ctx.count(f"table:{l['name']}:{l['phase']}:timeout={timeout_ms(l, consts)}:raiseEnds={l['raiseEnds']}")
 
 
 def _table():
     if "loops" not in _TABLE:
         from ekw import core
         loops, consts = scan_sources(core.REPO)
-        _TABLE["loops"] = {l["name"]: l for l in loops}
+        _TABLE["loops"] = {l["name"]: l for l in loops + scan_recv_only(core.REPO)}
         _TABLE["consts"] = consts
     return _TABLE
 
@@ -379,6 +632,8 @@ def mk_msg(sim, cls, uid, a, dst=None):
         m = msg.TaskSequence(worker=WorkerId(f"h{dst}", "w0"), tasks=[f"t{uid}"], publish=set())
     elif cls == "cmd":
         m = msg.DatasetTransmitCommand(source="h1", target="controller", daddress="tcp://x", ds=DatasetId("t", f"c{uid}"), idx=uid)
+    elif cls == "cmdx":      # a transmit command under a transmit idx the data server is still waiting on (idx 0): its handler raises
+        m = msg.DatasetTransmitCommand(source="h1", target="controller", daddress="tcp://x", ds=DatasetId("t", f"c{uid}"), idx=0)
     elif cls == "fail":      # a worker reports a task failure (forwarded to the controller: a ToShutdown message there)
         m = msg.TaskFailure(worker=WorkerId(f"h{a}", "w0"), task=f"t{uid}", detail="boom")
     elif cls == "failx":     # ... naming a host the controller does not know (its handler raises KeyError)
@@ -424,9 +679,12 @@ class RealRun:
         self.S = sim_c06
         self.case = case
         self.sim = sim_c06.Sim(*_mods())
+        self.sim.light = bool(case.get("oracle_only"))
+        self.stash = []          # packets the network adversary holds copies of (ops stash / unstash: delayed duplicates)
         self.trace = []
         self.loops_seen = []     # (loop name, retried?, acks taken, acks fed, failed?) per iteration, for the translator cross-check
         self.polls_seen = []     # (loop name, timeout the blocking poll was entered with)
+        self.raises_seen = []    # (loop name, did the loop end) per iteration in which maybe_retry raised
         self.dst_of = {}         # (ep, host name) -> destination endpoint
         self.opno = 0
 
@@ -473,8 +731,8 @@ class RealRun:
                 self.trace.append(("tx", self.sim.addr_id(first.addr), repr(body), first.idx))
             elif isinstance(first, msg.Ack) and len(frames) == 1:
                 self.trace.append(("acktx", by, self.sim.addr_id(dst_addr), first.idx, self.opno))
-        except Exception:  # noqa: BLE001
-            pass
+        except Exception as ex:  # noqa: BLE001 - the real code put something on the wire that is no pickled message
+            self.trace.append(("tx-undecodable", by, f"{type(ex).__name__}: {ex}"[:120]))
 
     def _final(self, e):
         exited = bool(e.coro is not None and e.coro.done and e.coro.exc is None
@@ -496,7 +754,11 @@ class RealRun:
         elif e.errors:
             self.trace.append(("aborted", e.a, "malformed-frame", self.opno, getattr(e, "iter_loop", e.loop)))
         if e.raised:
-            self.trace.append(("raised", e.a))
+            self.trace.append(("raised", e.a, getattr(e, "iter_loop", e.loop)))
+            # the ValueError reached the application: a bare endpoint's application is the harness itself (it called
+            # maybe_retry), a real loop's application got it iff the loop function ended with it (`_poll`: stops)
+            if e.kind == "bare" or getattr(e, "escaped", False):
+                self.trace.append(("escaped", e.a))
 
     def op(self, o):
         sim = self.sim
@@ -516,6 +778,17 @@ class RealRun:
             else:
                 sim.net.arrive(k, keep=(kind == "dup"))
             return ({"op": kind, "k": o["k"]}, e.digest(w0))
+        if kind == "stash":
+            # the adversary keeps a copy of net[k] aside (the original travels on): a duplicate to be delivered much later
+            if sim.net.net:
+                self.stash.append(sim.net.net[o["k"] % len(sim.net.net)])
+            return (None, None)
+        if kind == "unstash":
+            for pkt in self.stash:
+                sim.net.net.append(pkt)
+                self.trace.append(("dup", sim.addr_id(pkt[0])))
+            del self.stash[:]
+            return (None, None)
         if kind == "flush":
             drop_to = set(o.get("drop_to", []))
             while sim.net.net:
@@ -605,25 +878,37 @@ class RealRun:
     def _round(self, e):
         self.trace.append(("round", e.a, e.sender.resend_grace // 1_000_000, e.loop))
 
-    def _cause(self, e, failed_exc):
-        """why the iteration that just ended was abandoned — from what was observable"""
+    def _cause(self, e, failed_exc, loop0=None):
+        """why the iteration that just ended was abandoned - each cause from POSITIVE evidence of its own mechanism;
+        anything else is `unclassified` (which no known finding matches: a new way of dropping an acknowledged batch
+        is reported, not absorbed)"""
         sim = self.sim
+        done = e.coro is not None and e.coro.done
         if e.errors:
-            return "malformed-frame"
+            return "malformed-frame"                 # a `_recv_one` call raised inside this iteration
         if e.raised:
-            return "retry-raised"
+            return "retry-raised"                    # `maybe_retry` raised inside this iteration
         if e.kind == "executor":
-            if any(isinstance(m, sim.msg.ExecutorShutdown) for m in e.taken_msgs) and not any("ExecutorFailure" in x[1] for x in e.sent):
-                return "break-at-shutdown"
-            return "handler-exception"
+            failure_sent = any("ExecutorFailure" in x[1] for x in e.sent)
+            if failure_sent and done and e.coro.exc is None:
+                return "handler-exception"           # the `except Exception` clause ran: ExecutorFailure + terminate
+            if e.taken_msgs and isinstance(e.taken_msgs[-1], sim.msg.ExecutorShutdown) and not failure_sent \
+                    and done and e.coro.exc is None and any("ExecutorExit" in x[1] for x in e.sent):
+                return "break-at-shutdown"           # the last message taken was ExecutorShutdown: ExecutorExit, terminate, break
+            return "unclassified"
         if e.kind == "bridge":
             B = sim.bridge_mod
-            if e.taken_msgs and isinstance(e.taken_msgs[-1], (B.ToShutdown, B.Unsupported)) and not failed_exc:
-                return "shutdown-reason"
             if any(isinstance(m, (B.ToShutdown, B.Unsupported)) for m in e.taken_msgs):
-                return "shutdown-reason"
-            return "handler-exception"
-        return "handler-exception"
+                return "shutdown-reason"             # a message of this call set shutdown_reason
+            if loop0 == "Bridge.recv_events" and (e.loop == "Bridge.shutdown" or (done and isinstance(e.coro.exc, ValueError)
+                                                                                   and e.coro.exc.args and isinstance(e.coro.exc.args[0], Exception))):
+                return "handler-exception"           # no shutdown message, yet recv_events went into shutdown(): its except clause
+            return "unclassified"
+        if e.kind == "dataserver":
+            if done and e.coro.exc is not None:
+                return "handler-exception"           # DataServer.recv_loop has no handler: the exception ended the loop
+            return "unclassified"
+        return "unclassified"
 
     def _poll(self, e, w0, start_shutdown=False):
         sim = self.sim
@@ -643,13 +928,14 @@ class RealRun:
                 pass
             if sum(len(x) for x in e.pending()):
                 e.abandon(self._cause(e, True), e.loop)
+            e.escaped = e.raised
             if reached_retry:
                 # an opportunity for the sender to retransmit = an iteration of THIS (the harness' own) loop that got as far as
                 # its maybe_retry call; one that a malformed frame list ended inside recv_messages is none (the real loops die
                 # of it; this one goes on, and must not be charged with a retry it never attempted)
                 self._round(e)
             self._events(e)
-            return ({"op": "poll", "ep": a, "acts": list(e.acts)}, e.digest(w0))
+            return ({"op": "poll", "ep": a, "acts": list(e.acts)}, e.digest(w0, {"stops": bool(e.raised)}))
         # real loop in a coroutine thread, one iteration
         loop0 = e.loop
         if start_shutdown and e.kind == "bridge":
@@ -681,9 +967,21 @@ class RealRun:
             elif e.kind == "bridge" and loop0 == "Bridge.recv_events" and e.loop == "Bridge.recv_events" and woke:
                 e.commit(list(e.coro.result or []))
         if sum(len(x) for x in e.pending()):
-            if e.coro.done or e.loop != loop0 or e.kind == "executor":
-                e.abandon(self._cause(e, failed_exc), loop0)
+            if e.coro.done or e.loop != loop0 or e.kind in ("executor", "dataserver"):
+                e.abandon(self._cause(e, failed_exc, loop0), loop0)
         acts = list(e.acts)
+        # clause (b): did the sender's raise END the loop (reach the application)? Bridge.recv_events: the function raised,
+        # or is inside the shutdown() its except clause calls on the way to `raise ValueError(shutdown_reason)`;
+        # Executor.recv_loop: ExecutorFailure was sent and the function returned (terminate())
+        stops = False
+        if e.raised:
+            if e.kind == "bridge":
+                stops = (e.coro.done and e.coro.exc is not None) or (loop0 == "Bridge.recv_events" and e.loop == "Bridge.shutdown")
+            else:
+                stops = bool(e.coro.done)
+        e.escaped = stops
+        if woke and e.raised:
+            self.raises_seen.append((loop0, stops))
         # per iteration: did the loop call maybe_retry / feed the Acks (translator cross-check)
         if woke:
             failed = failed_exc or e.loop != loop0 or any("ExecutorFailure" in x[1] for x in e.sent) or bool(e.aborted) or bool(e.errors)
@@ -692,12 +990,12 @@ class RealRun:
             self.loops_seen.append((loop0, retried, nack, e.fed, bool(failed)))
         self.polls_seen.extend(e.poll_timeouts)
         self._events(e)
-        return ({"op": "poll", "ep": a, "acts": acts}, e.digest(w0, {"ended": ended}))
+        return ({"op": "poll", "ep": a, "acts": acts}, e.digest(w0, {"ended": ended, "stops": stops}))
 
 
 # ----------------------------------------------------------------------------- oracle (property text only)
 
-def oracle(case, trace, final):
+def oracle(case, trace, final, _skip=(), _cursor=None):
     """Every message handed to send is handed to the receiving APPLICATION (taken by the receiving loop's body /
     returned by recv_events to the controller) exactly once, or the sender raises within the retry budget once time
     has been allowed to pass; never twice; never a different message. Returns (signature, text) or None.
@@ -707,17 +1005,23 @@ def oracle(case, trace, final):
     sent = {}        # (dst, key) -> entry
     handled = {}     # (dst, key) -> count
     local = {}       # (dst, key) -> count
-    raised = set()
-    raised_before_tx = set()   # a sender object that is used on after it raised is outside the bound
+    raised = set()             # endpoints whose sender raised (maybe_retry's ValueError)
+    escaped = set()            # ... and the raise reached the application: it ended the loop function / came out of the
+                               # maybe_retry call of a bare endpoint. ONLY this excuses an undelivered message (clause (b))
+                               # and a sender object used on after that is outside the transmission bound
     tx = {}
     idx_of = {}      # (sender, key) -> [idx of every Syn the message was put on the wire under]
     acked_at = {}    # (sender, idx) -> [(acknowledging endpoint, op number)]
     aborts = {}      # endpoint -> [(op number, cause, loop)]
     popped = set()
+    raised_in = {}        # endpoint -> the loop in which its sender first raised
+    loop_raised = set()   # endpoints whose loop function ended with an exception (the application was told that the endpoint failed)
     for ev in trace:
         k = ev[0]
         if k == "crash":
             return ({"kind": "crash"}, f"real code raised unexpectedly: {ev[2]}")
+        if k == "tx-undecodable":
+            return ({"kind": "undecodable-frame-on-wire"}, f"endpoint {ev[1]} put a frame list on the wire whose first frames are no pickled messages: {ev[2]}")
         if k == "sent":
             _, a, dst, key, host, loop, idx = ev
             ent = sent.setdefault((dst, key), {"n": 0, "from": a, "host": host, "loop": loop, "rounds": {}, "idxs": []})
@@ -745,7 +1049,7 @@ def oracle(case, trace, final):
             if idx not in idx_of[(a, key)]:
                 idx_of[(a, key)].append(idx)
             nsent = sum(ent["n"] for (d, kk), ent in sent.items() if kk == key and ent["from"] == a)
-            if nsent and tx[(a, key)] > nsent * (maxr + 1) and a not in raised_before_tx:
+            if nsent and tx[(a, key)] > nsent * (maxr + 1) and a not in escaped:
                 return ({"kind": "too-many-transmissions"},
                         f"{key} from endpoint {a} was put on the wire {tx[(a, key)]} times, budget is 1 + {maxr} retries per send ({nsent} sends)")
         elif k == "acktx":
@@ -756,9 +1060,11 @@ def oracle(case, trace, final):
             aborts.setdefault(b, []).append((opno, cause, loop))
         elif k == "raised":
             raised.add(ev[1])
-            raised_before_tx.add(ev[1])
+            raised_in.setdefault(ev[1], ev[2] if len(ev) > 2 else "?")
+        elif k == "escaped":
+            escaped.add(ev[1])
         elif k == "loop-raised":
-            raised.add(ev[1])
+            loop_raised.add(ev[1])
         elif k == "popped":
             popped.add((ev[1], ev[2]))
         elif k == "tick":
@@ -774,8 +1080,12 @@ def oracle(case, trace, final):
                     ent["rounds"][loop] = ent["rounds"].get(loop, 0) + 1
                     ent["elapsed"] = 0
     for (dst, key), ent in sorted(sent.items(), key=lambda x: str(x[0])):
+        if (dst, key) in _skip:
+            continue
+        if _cursor is not None:
+            _cursor[:] = [(dst, key)]
         got = handled.get((dst, key), 0) - local.get((dst, key), 0)
-        if got >= ent["n"] or ent["from"] in raised:
+        if got >= ent["n"] or ent["from"] in escaped or ent["from"] in loop_raised:
             continue
         a = ent["from"]
         # (1) the destination acknowledged it (the sender will never resend nor raise) but its application never got it
@@ -790,6 +1100,13 @@ def oracle(case, trace, final):
                     f"{key} handed to send at endpoint {a} was acknowledged by endpoint {dst} (op {first}) but never handed to its application "
                     f"({loop}); the iteration was abandoned: {cause}; the sender neither resends nor raises")
         # (2) never acknowledged by its destination: the sender has to deliver it or raise
+        if a in raised:
+            # the sender gave up on some message and said so - to a loop that swallowed it: the application of endpoint a
+            # was never told, the loop goes on (clause (b): "else the sender RAISES", not "logs")
+            lp = raised_in.get(a, final[a]["loop"])
+            return ({"kind": "silent-loss", "cause": "raise-swallowed", "loop": lp},
+                    f"{key} handed to send at endpoint {a} was never handed to the application of endpoint {dst}; the sender's maybe_retry "
+                    f"raised (budget {maxr} retries exhausted) but the raise did not end {lp}: it was swallowed, the application was not told")
         loop = final[a]["loop"]
         forged = [(by, op) for i in unacked if i is not None for by, op in acked_at.get((a, i), [])
                   if any(o == op and c == "malformed-frame" for o, c, _ in aborts.get(by, []))]
@@ -813,6 +1130,25 @@ def oracle(case, trace, final):
                         f"{key} handed to send at endpoint {a} (in {ent['loop']}) was never delivered to endpoint {dst} and the sender did not "
                         f"raise although {lp} had {ent['rounds'][lp]} opportunities to iterate, each after more than the resend grace (budget {maxr} retries)")
     return None
+
+
+def oracle_all(case, trace, final):
+    """every distinct failure signature of one history (a history that shows a known finding must not hide another
+    failure): the per-message verdicts of `oracle`, one (signature, text) per signature"""
+    out, seen, skip = [], set(), set()
+    for _ in range(60):
+        cur = []
+        v = oracle(case, trace, final, skip, cur)
+        if v is None:
+            break
+        sig = json.dumps(v[0], sort_keys=True)
+        if sig not in seen:
+            seen.add(sig)
+            out.append(v)
+        if not cur:
+            break            # a failure of the event scan (crash, duplicate, wrong message, budget): nothing to skip
+        skip.add(cur[0])
+    return out
 
 
 # ----------------------------------------------------------------------------- generator
@@ -864,6 +1200,9 @@ def gen_case(rng, tier_big=False):
         graces = [rng.choice([0, 100, 800]) for _ in range(n)]
         for a in range(n):
             eps.append({"kind": "bare", "grace": graces[a], "hosts": [[f"p{b}", b] for b in range(n) if b != a]})
+        if rng.random() < 0.2:
+            # the last endpoint is a REAL DataServer (its recv_loop over its own Listener; it owns no ReliableSender)
+            eps[-1] = {"kind": "dataserver", "grace": GRACE_MS, "hosts": []}
     else:
         nx = rng.choice([1, 1, 2])
         k0 = "bridge" if rng.random() < 0.75 else "bare"
@@ -878,7 +1217,10 @@ def gen_case(rng, tier_big=False):
         for i in range(1, nx + 1):
             eps.append({"kind": "executor" if rng.random() < 0.75 else "bare", "grace": GRACE_MS, "hosts": [["controller", 0]]})
         if data:
-            eps.append({"kind": "bare", "grace": GRACE_MS, "hosts": [["controller", 0]]})
+            if rng.random() < 0.4:
+                eps.append({"kind": "dataserver", "grace": GRACE_MS, "hosts": []})     # the real DataServer.recv_loop behind data.h1
+            else:
+                eps.append({"kind": "bare", "grace": GRACE_MS, "hosts": [["controller", 0]]})
     n = len(eps)
     ops = []
     uid = [0]
@@ -898,7 +1240,13 @@ def gen_case(rng, tier_big=False):
         host, dst = rng.choice([hd for hd in e["hosts"] if hd[1] < n])
         if rng.random() < 0.04:
             host = "h9" if e["kind"] != "executor" else host   # unknown host -> KeyError
-        if style < 0.35:
+        if dst < n and eps[dst]["kind"] == "dataserver":
+            # what a data server is sent: transmit commands, payloads, purges; when `faulty` also a command under a transmit
+            # idx it is still waiting on and a message type it does not know (its handler raises, the loop dies)
+            cls = rng.choice(["cmd", "cmd", "payload", "payload", "purge"])
+            if faulty and rng.random() < 0.15:
+                cls = rng.choice(["cmdx", "cmdx", "pub"])
+        elif style < 0.35:
             cls = rng.choice(["pub", "purge", "payload"])
         elif a == 0:
             if host.startswith("data."):
@@ -927,6 +1275,8 @@ def gen_case(rng, tier_big=False):
                 cls = "pub"
                 if faulty and eps[a]["kind"] == "executor" and rng.random() < 0.3:
                     cls = rng.choice(["fail", "fail", "failx"])
+                if eps[a]["kind"] == "dataserver" and not (faulty and rng.random() < 0.2):
+                    cls = "purge"          # the executor forwards purges to its data server through the local callback
                 ops.append({"op": "local", "ep": a, "cls": cls, "m": fresh()})
         elif x < 0.62:
             ops.append({"op": rng.choice(["deliver", "deliver", "deliver", "drop", "drop", "dup"]), "k": rng.randrange(6)})
@@ -1029,14 +1379,122 @@ def witness_cases():
            "ops": [{"op": "send", "ep": 0, "host": "h1", "cls": "purge", "m": 1}, {"op": "flush", "drop_to": [1]},
                    {"op": "tick", "ep": 0, "dt": 1001}, {"op": "poll", "ep": 0}, {"op": "flush", "drop_to": [1]},
                    {"op": "local", "ep": 1, "cls": "pub", "m": 2}, {"op": "poll", "ep": 1}, {"op": "flush", "drop_to": [1]},
-                   {"op": "tick", "ep": 0, "dt": 1001}, {"op": "poll", "ep": 0}, {"op": "flush", "drop_to": [1]}]
-           + rounds(1, 1001, [{"op": "flush", "drop_to": [1]}])}
+                   {"op": "tick", "ep": 0, "dt": 1001}, {"op": "poll", "ep": 0}, {"op": "flush", "drop_to": []}]
+           + rounds(1, 1001, [{"op": "flush", "drop_to": []}])}
     # a rejected malformed list still acknowledges its leading Syn - here at a third endpoint
     w11 = {"max": maxr, "eps": [ctrl2, dl, ex], "name": "malformed-frame-acks-syn",
            "ops": [{"op": "inject", "ep": 2, "frames": [["syn", 0, 1], ["hdr", 0]]}, {"op": "poll", "ep": 2},
                    {"op": "send", "ep": 1, "host": "controller", "cls": "pub", "m": 4}, {"op": "flush", "drop_to": [0]}]
            + rounds(1, 1001)}
-    return [w1, w2, w3, w4, w5, w6, w7, w8, w9, w10, w11]
+    # the same family at the fourth receive loop: DataServer.recv_loop has no handler at all (bare `except: raise`); a
+    # command under a transmit idx it is still waiting on raises ValueError, the rest of the batch was acknowledged
+    dctrl = {"kind": "bare", "grace": GRACE_MS, "hosts": [["data.h1", 1]]}
+    dsrv = {"kind": "dataserver", "grace": GRACE_MS, "hosts": []}
+    w12 = {"max": maxr, "eps": [dctrl, dsrv], "name": "acked-then-dataserver-exception",
+           "ops": [{"op": "send", "ep": 0, "host": "data.h1", "cls": "cmdx", "m": 1}, {"op": "send", "ep": 0, "host": "data.h1", "cls": "cmdx", "m": 2},
+                   {"op": "send", "ep": 0, "host": "data.h1", "cls": "cmd", "m": 3}, {"op": "flush", "drop_to": []},
+                   {"op": "poll", "ep": 1}, {"op": "flush", "drop_to": []}] + rounds(0, 1001)}
+    # clause (b) at application level: the budget runs out inside the real Bridge.recv_events - the raise must END the
+    # loop (shutdown + ValueError to the controller), not be swallowed
+    w13 = {"max": maxr, "eps": [ctrl, ex, dl], "name": "retry-raise-ends-loop",
+           "ops": [{"op": "send", "ep": 0, "host": "h1", "cls": "purge", "m": 1}, {"op": "flush", "drop_to": [1]}]
+           + rounds(0, 1001, [{"op": "flush", "drop_to": [1]}])}
+    # ... and inside the real Executor.recv_loop (ExecutorFailure + terminate)
+    w14 = {"max": maxr, "eps": [bare_ctrl, ex], "name": "retry-raise-ends-executor-loop",
+           "ops": [{"op": "local", "ep": 1, "cls": "pub", "m": 1}, {"op": "poll", "ep": 1}, {"op": "flush", "drop_to": [0]}]
+           + rounds(1, 1001, [{"op": "flush", "drop_to": [0]}])}
+    return [w1, w2, w3, w4, w5, w6, w7, w8, w9, w10, w11, w12, w13, w14]
+
+
+# what each deterministic witness has to show on the real code (signature subset). A witness that stops showing it is
+# REPORTED (note + distribution count + stdout line): a known finding that silently disappears is a change of behaviour
+WITNESS_EXPECT = {
+    "bridge-shutdown-lost": {"kind": "silent-loss", "cause": "no-retry", "loop": "Bridge.shutdown"},
+    "executor-exit-lost": {"kind": "silent-loss", "cause": "loop-exited", "loop": "Executor.recv_loop:exit"},
+    "executor-publish-lost": None,          # expected clean (the repaired C06-executor-no-retry)
+    "popped-host-inflight": {"kind": "silent-loss", "cause": "host-popped"},
+    "acked-then-break-at-shutdown": {"kind": "acked-not-handled", "cause": "break-at-shutdown", "loop": "Executor.recv_loop"},
+    "acked-then-handler-exception": {"kind": "acked-not-handled", "cause": "handler-exception", "loop": "Executor.recv_loop"},
+    "acked-then-shutdown-reason": {"kind": "acked-not-handled", "cause": "shutdown-reason", "loop": "Bridge.recv_events"},
+    "acked-then-malformed-frame": {"kind": "acked-not-handled", "cause": "malformed-frame", "loop": "harness"},
+    "acked-then-malformed-frame-executor": {"kind": "acked-not-handled", "cause": "malformed-frame", "loop": "Executor.recv_loop"},
+    "acked-then-retry-raised": {"kind": "acked-not-handled", "cause": "retry-raised", "loop": "Bridge.recv_events"},
+    "malformed-frame-acks-syn": {"kind": "silent-loss", "cause": "malformed-frame-acked"},
+    "acked-then-dataserver-exception": {"kind": "acked-not-handled", "cause": "handler-exception", "loop": "DataServer.recv_loop"},
+    "retry-raise-ends-loop": None,           # expected: no `raise-swallowed`; the raise is seen to end the loop (raise-in-loop counts)
+    "retry-raise-ends-executor-loop": None,
+}
+
+
+def _check_witness(ctx, case, viols):
+    name = case.get("name")
+    exp = case["expect"] if "expect" in case else WITNESS_EXPECT.get(name)
+    sigs = [v[0] for v in viols]
+    if exp is None:
+        ok = True       # expected clean: anything it shows is reported by the oracle anyway
+    else:
+        ok = any(all(sg.get(k) == x for k, x in exp.items()) for sg in sigs)
+    ctx.count(f"witness:{name}:{'reproduced' if ok else 'NOT-REPRODUCED'}")
+    ctx.extra.setdefault("witnesses", {})[name] = {"expected": exp, "observed": sigs, "reproduced": ok}
+    if not ok:
+        note = (f"known-finding witness '{name}' no longer shows {json.dumps(exp, sort_keys=True)} on this tree "
+                f"(observed: {json.dumps(sigs, sort_keys=True)}): the behaviour behind a known finding changed - "
+                f"review the finding (repaired? masked? moved?)")
+        ctx.notes.append(note)
+        ctx.count("known-finding-witness-not-reproduced")
+        print(f"NOTE property={PROPERTY} {note}", flush=True)
+
+
+def long_cases(rng, n_cases=2):
+    """LONG histories (oracle only - the model side is not run on them, its state digest is quadratic in the length):
+    1500-1900 acknowledged messages through ONE real Listener, in chunks; the network adversary keeps copies of early
+    packets (and of some later ones) and delivers them hundreds / more than a thousand messages later, some only at the
+    very end. Receiver: a bare Listener read by recv_messages, or the real Executor.recv_loop. Any bound, expiry or reset
+    of `Listener.acked` (the source's own TODO) shows as a second hand-over of an old message."""
+    out = []
+    for ci in range(n_cases):
+        total = rng.randint(1500, 1900)
+        to_executor = (ci % 2 == 1)
+        if to_executor:
+            eps = [{"kind": "bare", "grace": GRACE_MS, "hosts": [["h1", 1]]}, {"kind": "executor", "grace": GRACE_MS, "hosts": [["controller", 0]]}]
+            host = "h1"
+        else:
+            eps = [{"kind": "bare", "grace": GRACE_MS, "hosts": [["p1", 1]]}, {"kind": "bare", "grace": GRACE_MS, "hosts": [["p0", 0]]}]
+            host = "p1"
+        ops = []
+        sent = 0
+        pending_unstash = []      # message counts at which held duplicates are released
+        first = True
+        held = 0
+
+        def release():
+            # a duplicate ends a recv_messages batch (its `_recv_one` returns None): one more call per held copy
+            nonlocal held
+            r = [{"op": "unstash"}, {"op": "flush", "drop_to": []}] + [{"op": "poll", "ep": 1}] * (held + 1) \
+                + [{"op": "flush", "drop_to": []}, {"op": "poll", "ep": 0}]
+            held = 0
+            return r
+        while sent < total:
+            c = min(total - sent, rng.randint(20, 60))
+            for _ in range(c):
+                sent += 1
+                ops.append({"op": "send", "ep": 0, "host": host, "cls": rng.choice(["purge", "purge", "payload"]) if not to_executor else "purge", "m": sent})
+            if first or rng.random() < 0.25:
+                # hold copies of up to 6 packets of this chunk
+                for _ in range(rng.randint(2, 6)):
+                    ops.append({"op": "stash", "k": rng.randrange(c)})
+                    held += 1
+                pending_unstash.append(sent + (rng.choice([1100, 1300, 10 ** 9]) if first else rng.choice([100, 300, 600, 1100, 10 ** 9])))
+                first = False
+            ops += [{"op": "flush", "drop_to": []}, {"op": "poll", "ep": 1}, {"op": "flush", "drop_to": []}, {"op": "poll", "ep": 0}]
+            if any(t <= sent for t in pending_unstash):
+                pending_unstash = [t for t in pending_unstash if t > sent]
+                # note: all held copies are released together (the stash is one list); later ones are held again afterwards
+                ops += release()
+        ops += release()
+        out.append({"max": 3, "eps": eps, "ops": ops, "name": f"long-{'executor' if to_executor else 'bare'}-{total}", "oracle_only": True,
+                    "expect": None})
+    return out
 
 
 def payload_cases():
@@ -1153,19 +1611,22 @@ ERR_OF = [("unexpected empty message", "empty"), ("unexpected message with Syn o
 
 
 def real_rawrecv(case):
-    """one real `_recv_one` on a shell Listener holding exactly this frame list"""
+    """one real `_recv_one` on a REAL Listener (its own constructor, over the fake zmq context) holding exactly this
+    frame list. The Syns of case["acked"] are made known to it the way the code itself learns them: a two-frame message
+    under each goes through `_recv_one` first (no attribute of the Listener is written from here)."""
     from ekw import sim_c06
+    from cascade.low.core import DatasetId
     sim = sim_c06.Sim(*_mods())
     with sim.installed():
         comms, msg = sim.comms, sim.msg
         sim.net.inbox[sim.addr(0)] = None
         sim.net.inbox[sim.addr(1)] = None          # Acks to both possible Syn addresses are recorded
-        l = object.__new__(comms.Listener)
-        l.address = "tcp://raw"
-        l.socket = sim_c06.FakePull(sim)
-        l.poller = comms.zmq.Poller()
-        l.poller.register(l.socket)
-        l.acked = {msg.Syn(idx=i, addr=sim.addr(a)) for i, a in case["acked"]}
+        l = comms.Listener("tcp://raw")
+        for i, a in case["acked"]:
+            l.socket.queue.append((pickle.dumps(msg.Syn(idx=i, addr=sim.addr(a))), pickle.dumps(msg.DatasetPurge(ds=DatasetId("pre", str(i))))))
+            l._recv_one(0)
+        del sim.net.net[:]
+        del sim.net.emitted[:]
         before = set(l.acked)
         l.socket.queue.append(tuple(_frame_bytes(sim, f) for f in case["frames"]))
         try:
@@ -1173,10 +1634,12 @@ def real_rawrecv(case):
             res = ["none"] if r is None else ["ok", sim.parsed_json(r)]
         except ValueError as e:
             res = ["err", next((c for p, c in ERR_OF if str(e).startswith(p)), "other:" + str(e)[:40])]
-        except Exception:  # noqa: BLE001 - pickle.loads failed
+        except (pickle.UnpicklingError, EOFError):       # des_message on a frame that is no pickle
             res = ["err", "des"]
+        except Exception as e:  # noqa: BLE001 - anything else is the code's own failure, not a rejected frame list
+            res = ["err", "exc:" + type(e).__name__]
         acks = [[sim.addr_id(ad), pickle.loads(fr[0]).idx] for ad, fr in sim.net.net]
-        new = [[y.idx, sim.addr_id(y.addr)] if hasattr(y, "addr") else [y if isinstance(y, int) else -1, -1] for y in l.acked - before]
+        new = [[y.idx, sim.addr_id(y.addr)] if hasattr(y, "addr") else [y if isinstance(y, int) else -1, -1] for y in set(l.acked) - before]
     return {"res": res, "ack": acks[0] if len(acks) == 1 else (None if not acks else acks),
             "mark": new[0] if len(new) == 1 else (None if not new else new)}
 
@@ -1226,6 +1689,11 @@ def oracle_of(case):
     return oracle(case, rr.trace, rr.final)
 
 
+def oracle_all_of(case):
+    rr, out = run_real(case)
+    return oracle_all(case, rr.trace, rr.final)
+
+
 def shrink_ops(case, pred):
     cur = list(case["ops"])
     changed = True
@@ -1243,6 +1711,25 @@ def shrink_ops(case, pred):
     return dict(case, ops=cur)
 
 
+def shrink_chunks(case, pred, budget=45):
+    cur = list(case["ops"])
+    size = len(cur) // 2
+    while size >= 8 and budget > 0:
+        i = 0
+        progressed = False
+        while i < len(cur) and budget > 0:
+            cand = cur[:i] + cur[i + size:]
+            budget -= 1
+            if cand and pred(dict(case, ops=cand)):
+                cur = cand
+                progressed = True
+            else:
+                i += size
+        if not progressed:
+            size //= 2
+    return dict(case, ops=cur)
+
+
 def _canon(d):
     if isinstance(d, dict):
         d = dict(d)
@@ -1250,6 +1737,8 @@ def _canon(d):
             if isinstance(d.get(k), list):
                 d[k] = sorted(d[k])
         d.pop("table", None)
+        # HOW the loop function ended ("return" / exception class) is the loop's business and not modelled; THAT it ended in
+        # the iteration in which the sender raised is: `stops` stays in the digest and is compared (Drive/C06.lean `poll`)
         d.pop("ended", None)
     return d
 
@@ -1288,12 +1777,18 @@ def _stats(ctx, case, rr):
     for t in rr.trace:
         if t[0] == "aborted":
             ctx.count("iteration-abandoned:" + t[2])
+            ctx.count(f"iteration-abandoned:{t[2]}:{t[4]}")
         elif t[0] == "inject":
             ctx.count("injected-frame-lists")
         elif t[0] == "popped":
             ctx.count("hosts-popped")
     if case["max"] == 20:
         ctx.count("ops-with-real-budget", len(case["ops"]))
+    if case.get("oracle_only"):
+        ctx.count("long-histories(oracle-only)")
+        ctx.count("long-history-messages", sum(1 for t in rr.trace if t[0] == "sent"))
+        ctx.count("long-history-delayed-duplicates", n_dup)
+        ctx.count("long-history-receiver:" + case["eps"][1]["kind"])
     return n_drop, n_dup
 
 
@@ -1312,6 +1807,13 @@ def _check_table(ctx, rr, case):
         if nack > 0 and (fed > 0) != tab[name]["feedsAck"]:
             ctx.disagree("translator-vs-dynamic", dict(cd, loop=name),
                          {"feedsAck": tab[name]["feedsAck"]}, {"acks received": nack, "sender.ack calls": fed})
+    for name, stops in rr.raises_seen:
+        if name not in tab:
+            continue
+        ctx.count(f"raise-in-loop:{name}:{'ended-the-loop' if stops else 'SWALLOWED'}")
+        if tab[name]["raiseEnds"] and not stops:      # (a loop with a swallowing handler may still end for another reason)
+            ctx.disagree("translator-vs-dynamic", dict(cd, loop=name),
+                         {"raiseEnds": tab[name]["raiseEnds"]}, {"the loop ended in the iteration in which maybe_retry raised": stops})
     for name, tmo in rr.polls_seen:
         if name not in tab:
             continue
@@ -1329,8 +1831,21 @@ def _report_violation(ctx, case, viol):
         ctx.violation(kind, {"type": "history", "max": case["max"], "eps": case["eps"], "ops": case["ops"]}, viol[1])
         return
     seen.add(sig)
-    small = shrink_ops(case, lambda c: (oracle_of(c) or ({},))[0] == kind)
-    v2 = oracle_of(small) or viol
+    from ekw.core import load_known, match_known
+    if match_known(PROPERTY, kind, load_known()) is not None:
+        # a known finding: its minimal history is the deterministic witness replayed on every run - no shrinking
+        ctx.violation(kind, {"type": "history", "max": case["max"], "eps": case["eps"], "ops": case["ops"]}, viol[1])
+        return
+    if len(case["ops"]) > 400:
+        # a long history: one replay costs a second - remove large chunks first (delta debugging, small budget); what is
+        # still long after that is reported as it is (a bound on `acked` needs its thousand messages)
+        case = shrink_chunks(case, lambda c: any(v[0] == kind for v in oracle_all_of(c)))
+        if len(case["ops"]) > 400:
+            v2 = next((v for v in oracle_all_of(case) if v[0] == kind), viol)
+            ctx.violation(kind, {"type": "history", "max": case["max"], "eps": case["eps"], "ops": case["ops"], "oracle_only": True}, v2[1])
+            return
+    small = shrink_ops(case, lambda c: any(v[0] == kind for v in oracle_all_of(c)))
+    v2 = next((v for v in oracle_all_of(small) if v[0] == kind), viol)
     ctx.violation(v2[0], {"type": "history", "max": small["max"], "eps": small["eps"], "ops": small["ops"]}, v2[1])
 
 
@@ -1346,6 +1861,7 @@ def _real_phase(ctx, with_model=True):
             cases.append(c)
     cases += witness_cases()
     cases += payload_cases()
+    cases += long_cases(ctx.rng, ctx.budget(2, 12))
     for _ in range(nhist):
         cases.append(gen_case(ctx.rng, tier_big=not ctx.quick))
     material = []
@@ -1357,11 +1873,14 @@ def _real_phase(ctx, with_model=True):
         ctx.case({"max": case["max"], "eps": [e["kind"] for e in case["eps"]], "ops": case["ops"][:10], "n_ops": len(case["ops"])},
                  nontrivial=((n_drop + n_dup > 0 and retrans > 0) or any(t[0] == "aborted" for t in rr.trace)))
         _check_table(ctx, rr, case)
-        viol = oracle(case, rr.trace, rr.final)
-        if viol:
-            ctx.count("oracle:" + viol[0]["kind"])
+        viols = oracle_all(case, rr.trace, rr.final)
+        for viol in viols:
+            ctx.count("oracle:" + viol[0]["kind"] + (":" + viol[0]["cause"] if "cause" in viol[0] else ""))
             _report_violation(ctx, case, viol)
-        material.append((case, out))
+        if case.get("expect") is not None or case.get("name") in WITNESS_EXPECT:
+            _check_witness(ctx, case, viols)
+        if not case.get("oracle_only"):
+            material.append((case, out))
     fcases = [gen_frames(ctx.rng) for _ in range(nframes)]
     fouts = []
     for fc in fcases:
@@ -1433,13 +1952,20 @@ def search(ctx, why):
     known = load_known()
     if any(match_known(PROPERTY, v["signature"], known) is None for v in ctx.violations):
         return      # an unexplained failing input is already at hand
+    from ekw.core import match_known as _mk
+    for case in long_cases(ctx.rng, ctx.budget(3, 10)):
+        rr, out = run_real(case)
+        for viol in oracle_all(case, rr.trace, rr.final):
+            if _mk(PROPERTY, viol[0], known) is None:
+                _report_violation(ctx, case, viol)
+                return
     for _ in range(ctx.budget(1500, 20000)):
         case = gen_case(ctx.rng, tier_big=True)
         rr, out = run_real(case)
-        viol = oracle(case, rr.trace, rr.final)
-        if viol:
-            _report_violation(ctx, case, viol)
-            return
+        for viol in oracle_all(case, rr.trace, rr.final):
+            if _mk(PROPERTY, viol[0], known) is None:
+                _report_violation(ctx, case, viol)
+                return
     for _ in range(ctx.budget(5000, 50000)):
         fc = gen_frames(ctx.rng)
         try:
